@@ -145,6 +145,13 @@ class World:
             self.ptime.resume()
         elif ev[0] == "s":
             self.ptime.set_time_scale(float(F(ev[1])))
+        elif ev[0] == "l":
+            # an older (or newer) clock state is loaded: the system clock continues from another value
+            d = dict(self.ctl.state_dict())
+            for k in d:
+                if k.startswith("scaled_anchor"):
+                    d[k] = float(F(d[k]) + F(ev[1]))
+            self.ctl.load_state_dict(d)
         elif ev[0] == "x":
             # exporting the clock state (what every state save does, also while paused) is pure
             # (C06 export_pure): it has no counterpart in the Adjust model
@@ -241,6 +248,13 @@ def run_case(case: dict, driver):
                 impl.append(f"sys={show_frac(world.sys())} scale={show_frac(F(world.ctl.get_time_scale()))} "
                             f"paused={'1' if world.ctl.is_paused() else '0'}")
                 trace.append(("ev",))
+            elif op[0] == "load":
+                world.apply_ev(["l", op[1]])
+                lines.append(f"adjust load {show_frac(world.sys())}")
+                impl.append(f"sys={show_frac(world.sys())} scale={show_frac(F(world.ctl.get_time_scale()))} "
+                            f"paused={'1' if world.ctl.is_paused() else '0'}")
+                T_prev = None          # intervals are not compared across a jump of the clock
+                trace.append(("load",))
             elif op[0] == "reset":
                 before = world.sys()
                 v = F(adj.reset())
@@ -446,6 +460,10 @@ def gen_case(rng) -> dict:
         ops = [] if rng.random() < 0.1 else [["reset"]]
         for _ in range(rng.randint(1, 7)):
             if rng.random() < 0.15:
+                ops.append(["reset"])
+            if rng.random() < 0.12:
+                # the same adjustor in a second session: a checkpoint (often an older one) is loaded, then setup()
+                ops.append(["load", rng.choice(["-8", "-1", "-1/4", "3"])])
                 ops.append(["reset"])
             evs = gen_evs(rng, True, True)
             if mode == "wild" and rng.random() < 0.2:
